@@ -130,15 +130,19 @@ func escape(s string, m map[rune]string) string {
 				c = Decontrol(c)
 			}
 
-			if IsMeta(c) {
+			// The reader takes the character after \M- literally, so only
+			// use the prefix when what follows is printable.
+			if IsMeta(c) && unicode.IsPrint(Demeta(c)) {
 				s += `\M-`
 				c = Demeta(c)
 			}
 
-			if unicode.IsPrint(c) {
+			switch {
+			case unicode.IsPrint(c), c > 0xff:
+				// \xHH encodes one byte: wider runes are written as they are.
 				s += string(c)
-			} else {
-				s += fmt.Sprintf(`\x%2x`, c)
+			default:
+				s += fmt.Sprintf(`\x%02x`, c)
 			}
 
 			v = append(v, s)
